@@ -269,6 +269,22 @@ def hunts(quick, focus, timeout):
             cfg['n_agents'] = max([cfg['n_agents']] + [WR[p['optimizer']]['min_agents'] for p in cfg['prelude']])
             cfg['repro'] = False
             out.append(cfg)
+    # focused on few optimizers: they are also the EARLIER task of histories observed through other optimizers (those that clip
+    # trial agents individually see the bounds the earlier task left on the agents; PSO sees inherited fitnesses)
+    if len(opts) <= 3:
+        for o in opts:
+            for j, obs in enumerate([x for x in ('SA', 'ABC', 'HS', 'BA', 'PSO', 'FPA') if x != o]):
+                if 'search' not in WR[o]['spaces']:
+                    continue
+                for i in range(3 if quick else 10):
+                    c = {'objective': ['sphere', 'shifted', 'negative'][i % 3], 'ret': 'pyfloat', 'box': ['asym', 'narrow', 'asym'][i % 3],
+                         'agents': [12, 5, 20][i % 3], 'n_variables': [2, 5, 1][i % 3], 'n_dimensions': 1, 'n_iterations': [10, 3, 5][i % 3],
+                         'draws': 'seeded', 'hp': 'default', 'store_best_only': False, 'hook': 'observe'}
+                    cfg = make(obs, 'search', c, 9700 + 10 * j + i, timeout)
+                    cfg['prelude'] = [{'optimizer': o, 'hyperparams': hyperparams(o, 'default', rnd, cfg['n_agents'])}]
+                    cfg['n_agents'] = max(cfg['n_agents'], WR[o]['min_agents'], 2 if o == 'WCA' else 1)
+                    cfg['repro'] = False
+                    out.append(cfg)
     # a history on the optimizer object: the same object has already run a task on another space with fewer / more agents
     for o in opts:
         for i in range((2 if len(opts) > 3 else 8) if quick else (6 if len(opts) > 3 else 24)):
